@@ -16,7 +16,7 @@ pub const FLOORS: &[&str] = &[
     "reset_after_eval_store", "reset_after_program_store", "reset_twice", "reset_then_full_run",
     "store_into_code", "store_into_stack_area", "memory_dirty_before_reset", "output:minimal", "output:decorated",
     "assembly_after_store_into_code", "resumed_under_debugger_after_reset", "reset_while_paused_on_breakpoint",
-    "resume_after_reset_compared_with_fresh_session", "reset_after_unfinished_step_over_call", "halt_planted_before_reset", "reset_after_eval_jump", "reset_while_parked_on_a_halt_planted_at_the_origin", "planted_halt_at_the_origin_reached_by_running", "words_exchanged_before_reset", "reset_after_a_long_run", "image_ends_at_fffe", "reset_while_the_program_has_words_on_the_stack",
+    "resume_after_reset_compared_with_fresh_session", "reset_after_unfinished_step_over_call", "halt_planted_before_reset", "reset_after_eval_jump", "reset_while_parked_on_a_halt_planted_at_the_origin", "planted_halt_at_the_origin_reached_by_running", "words_exchanged_before_reset", "reset_after_a_long_run", "image_ends_at_fffe", "reset_while_the_program_has_words_on_the_stack", "eval_of_an_extension_mnemonic_without_the_flag_before_reset",
 ];
 
 const FUEL: u64 = 15_000;
@@ -181,6 +181,25 @@ fn one_case(seed: u64, i: u64) -> CaseOut {
             st(None, Stmt::Pop(2)),
             st(None, Stmt::Pop(3)),
             st(None, Stmt::AddR(4, 3, 2)),
+            st(None, Stmt::Alias(0x25)),
+            Item::End,
+        ]);
+        built.program = Program { items };
+        built.input.clear();
+        built.features.clear();
+    }
+    // without the flag: an `eval` of an extension mnemonic is refused, and the words of opcode 0xD the program runs
+    // into after the reset end the run as they do in a fresh one
+    let ext_words_without_flag = !stack && !long_history && i % 19 == 7;
+    if ext_words_without_flag {
+        let st = |label: Option<&str>, stmt: Stmt| Item::Stmt { label: label.map(|l| l.to_string()), stmt };
+        let mut items: Vec<Item> = match o.origin { Some(v) => vec![Item::Orig(v)], None => vec![] };
+        items.extend(vec![
+            st(None, Stmt::AndI(0, 0, 0)),
+            st(None, Stmt::AddI(0, 0, 7)),
+            st(Some("w"), Stmt::Fill(0xD400)),
+            st(None, Stmt::Fill(0xD080)),
+            st(None, Stmt::AddR(3, 2, 0)),
             st(None, Stmt::Alias(0x25)),
             Item::End,
         ]);
@@ -396,6 +415,19 @@ fn one_case(seed: u64, i: u64) -> CaseOut {
         }
         tags.push("reset_while_the_program_has_words_on_the_stack");
     }
+    if ext_words_without_flag {
+        lines.clear();
+        bp_lines.clear();
+        tags.clear();
+        if rng.bool() {
+            lines.push("step".into());
+        }
+        lines.push(rng.s(&["eval push r0", "eval pop r1", "eval PUSH R3", "eval rets", "eval call w", "e push r7"]).to_string());
+        if rng.bool() {
+            lines.push("step out".into());
+        }
+        tags.push("eval_of_an_extension_mnemonic_without_the_flag_before_reset");
+    }
     let n_resets = if long_history { 1 } else { 1 + rng.below(3) };
     let mut reset_lines = Vec::new();
     for k in 0..n_resets {
@@ -407,7 +439,7 @@ fn one_case(seed: u64, i: u64) -> CaseOut {
             lines.push("si 2".into());
         }
     }
-    let full_run = rng.chance(2, 3) || halt_at_origin_history || long_history || unbalanced_stack;
+    let full_run = rng.chance(2, 3) || halt_at_origin_history || long_history || unbalanced_stack || ext_words_without_flag;
     let mut resume_cmd: Option<String> = None;
     if full_run {
         // resume in different ways before detaching: with the debugger still attached for a while
